@@ -501,4 +501,230 @@ theorem carNest_flat (xs : List Datum) (h : ∀ x ∈ xs, carNest x = 0) :
     have := ih (fun y hy => h y (by simp [hy]))
     simp only [Datum.ofList, carNest, hx]; omega
 
+/-- a list of any length — proper, or dotted with tail `t` — is as car-nested as its elements
+    (plus the step into the element) and its tail: cdr steps are free -/
+theorem carNest_ofListTail (xs : List Datum) (t : Datum) (k : Nat)
+    (h : ∀ x ∈ xs, carNest x ≤ k) (ht : carNest t ≤ k + 1) :
+    carNest (Datum.ofListTail xs t) ≤ k + 1 := by
+  induction xs with
+  | nil => simpa [Datum.ofListTail] using ht
+  | cons x xs ih =>
+    have hx := h x (by simp)
+    have := ih (fun y hy => h y (by simp [hy]))
+    simp only [Datum.ofListTail, carNest]; omega
+
+/-! ## the flat directions with aggregate elements (`cdrPairs`) and a dotted tail (`cdrDotted`) -/
+
+theorem quoteSugar_pairsElem (i : Nat) (x : Datum) : quoteSugar (.pair (pairsElem i) x) = none := by
+  unfold pairsElem; split <;> rfl
+
+theorem maybePut_pairsElem (i : Nat) :
+    maybePutDepth (pairsElem i) = if i % 2 = 0 then 3 else 2 := by
+  unfold pairsElem; split <;> simp [maybePutDepth, maybePutElems, one, two]
+
+theorem getVal_pairsElem (i : Nat) : getValDepth (pairsElem i) = if i % 2 = 0 then 3 else 2 := by
+  unfold pairsElem; split <;> simp [getValDepth, getSpine, getElems, immediate, one, two]
+
+theorem markIn_pairsElem (i : Nat) : markIn (pairsElem i) = 1 := by
+  unfold pairsElem; split <;> simp [markIn, markElems, immediate, one, two]
+
+theorem equal_pairsElem (i : Nat) : equalDepth (pairsElem i) = 3 := by
+  unfold pairsElem; split <;> simp [equalDepth, equalSpine, equalElems, one, two]
+
+theorem display_pairsElem (i : Nat) : displayDepth (pairsElem i) = 2 := by
+  unfold pairsElem; split <;> simp [displayDepth, displaySpine, displayElems, quoteSugar, one, two]
+
+theorem drop_pairsElem (i : Nat) : dropDepth (pairsElem i) = 2 := by
+  unfold pairsElem; split <;> simp [dropDepth, dropElems, one, two]
+
+theorem maybePut_cdrPairs (n : Nat) :
+    maybePutDepth (nest .cdrPairs n) = if n = 0 then 1 else 2 * n + 3 := by
+  induction n with
+  | zero => simp [nest, maybePutDepth]
+  | succ n ih =>
+    have hs : n + 1 ≠ 0 := by omega
+    simp only [nest, maybePutDepth, ih, maybePut_pairsElem, hs, if_false]
+    by_cases h : n = 0
+    · subst h; simp
+    · simp only [h, if_false]; split <;> omega
+
+theorem maybePut_cdrDotted (n : Nat) : maybePutDepth (nest .cdrDotted n) = 2 * n + 1 := by
+  induction n with
+  | zero => simp [nest, maybePutDepth, two]
+  | succ n ih => simp only [nest, maybePutDepth, ih, one]; omega
+
+theorem getSpine_cdrPairs (n : Nat) : getSpine (nest .cdrPairs n) = if n = 0 then 0 else 4 := by
+  induction n with
+  | zero => simp [nest, getSpine]
+  | succ n ih =>
+    simp only [nest, getSpine, ih, getVal_pairsElem]
+    by_cases h : n = 0
+    · subst h; simp
+    · simp only [h, if_false]; split <;> simp
+
+theorem getVal_cdrPairs (n : Nat) : getValDepth (nest .cdrPairs n) = if n = 0 then 1 else 5 := by
+  cases n with
+  | zero => simp [nest, getValDepth]
+  | succ n =>
+    have h := getSpine_cdrPairs (n + 1)
+    simp only [nest, getSpine] at h
+    simp only [nest, getValDepth]
+    simp only [Nat.add_one_ne_zero, if_false] at h ⊢
+    omega
+
+theorem getSpine_cdrDotted (n : Nat) : getSpine (nest .cdrDotted n) = if n = 0 then 1 else 2 := by
+  induction n with
+  | zero => simp [nest, getSpine, two]
+  | succ n ih => simp only [nest, getSpine, getValDepth, ih, one]; split <;> simp
+
+theorem getVal_cdrDotted (n : Nat) : getValDepth (nest .cdrDotted n) = if n = 0 then 1 else 3 := by
+  cases n with
+  | zero => simp [nest, getValDepth, two]
+  | succ n => simp only [nest, getValDepth, getSpine_cdrDotted, one]; split <;> simp
+
+theorem markIn_cdrPairs (n : Nat) : markIn (nest .cdrPairs n) = if n = 0 then 0 else 2 := by
+  induction n with
+  | zero => simp [nest, markIn]
+  | succ n ih => simp only [nest, markIn, ih, markIn_pairsElem]; split <;> simp
+
+theorem markIn_cdrDotted (n : Nat) : markIn (nest .cdrDotted n) = if n = 0 then 0 else 1 := by
+  induction n with
+  | zero => simp [nest, markIn, two]
+  | succ n ih => simp only [nest, markIn, ih, one]; split <;> simp
+
+theorem equalSpine_cdrPairs (n : Nat) :
+    equalSpine (nest .cdrPairs n) = if n = 0 then 1 else 3 := by
+  induction n with
+  | zero => simp [nest, equalSpine]
+  | succ n ih => simp only [nest, equalSpine, ih, equal_pairsElem]; split <;> simp
+
+theorem equal_cdrPairs (n : Nat) : equalDepth (nest .cdrPairs n) = if n = 0 then 1 else 5 := by
+  cases n with
+  | zero => simp [nest, equalDepth]
+  | succ n => simp only [nest, equalDepth, equalSpine_cdrPairs, equal_pairsElem]; split <;> simp
+
+theorem equalSpine_cdrDotted (n : Nat) : equalSpine (nest .cdrDotted n) = 1 := by
+  induction n with
+  | zero => simp [nest, equalSpine, two]
+  | succ n ih => simp only [nest, equalSpine, equalDepth, ih, one]; simp
+
+theorem equal_cdrDotted (n : Nat) : equalDepth (nest .cdrDotted n) = if n = 0 then 1 else 3 := by
+  cases n with
+  | zero => simp [nest, equalDepth, two]
+  | succ n => simp only [nest, equalDepth, equalSpine_cdrDotted, one]; simp
+
+theorem drop_cdrPairs (n : Nat) : dropDepth (nest .cdrPairs n) = if n = 0 then 1 else n + 2 := by
+  induction n with
+  | zero => simp [nest, dropDepth]
+  | succ n ih => simp only [nest, dropDepth, ih, drop_pairsElem]; split <;> simp <;> omega
+
+theorem drop_cdrDotted (n : Nat) : dropDepth (nest .cdrDotted n) = n + 1 := by
+  induction n with
+  | zero => simp [nest, dropDepth, two]
+  | succ n ih => simp only [nest, dropDepth, ih, one]; omega
+
+theorem displaySpine_cdrPairs (n : Nat) :
+    displaySpine (nest .cdrPairs n) = if n = 0 then 0 else 2 := by
+  induction n with
+  | zero => simp [nest, displaySpine]
+  | succ n ih => simp only [nest, displaySpine, ih, display_pairsElem]; split <;> simp
+
+theorem display_cdrPairs (n : Nat) : displayDepth (nest .cdrPairs n) = if n = 0 then 1 else 3 := by
+  cases n with
+  | zero => simp [nest, displayDepth]
+  | succ n =>
+    simp only [nest]
+    rw [displayDepth_pair_none _ _ (quoteSugar_pairsElem _ _), displaySpine_cdrPairs,
+      display_pairsElem]
+    by_cases h : n = 0 <;> simp [h]
+
+theorem displaySpine_cdrDotted (n : Nat) :
+    displaySpine (nest .cdrDotted n) = 1 := by
+  induction n with
+  | zero => simp [nest, displaySpine, two]
+  | succ n ih => simp only [nest, displaySpine, displayDepth, ih, one]; simp
+
+theorem display_cdrDotted (n : Nat) : displayDepth (nest .cdrDotted n) = if n = 0 then 1 else 2 := by
+  cases n with
+  | zero => simp [nest, displayDepth, two]
+  | succ n =>
+    simp only [nest, one]
+    rw [displayDepth_pair_none _ _ (quoteSugar_num _ _), displaySpine_cdrDotted]
+    simp [displayDepth]
+
+/-! ### reader on the two flat directions -/
+
+theorem parseD_pairsElem (i : Nat) (f d : Nat) (rest : List Tk) (hf : 5 ≤ f) :
+    parseD f d (pairsElemToks i rest) = some (if i % 2 = 0 then d + 3 else d + 2, some rest) := by
+  obtain ⟨f, rfl⟩ : ∃ g, f = g + 5 := ⟨f - 5, by omega⟩
+  unfold pairsElemToks
+  split
+  · simp [parseD, listD, tailD]
+  · simp [parseD, vecD]
+
+theorem pairsElemToks_head (i : Nat) (rest : List Tk) :
+    ∃ t tl, pairsElemToks i rest = t :: tl ∧ (t = .lp ∨ t = .hp) := by
+  unfold pairsElemToks; split <;> simp
+
+theorem listD_pairs (n : Nat) : ∀ (f d : Nat) (ne : Bool) (rest : List Tk), n + 5 ≤ f →
+    listD f d ne (pairsToks n (.rp :: rest)) = some (if n = 0 then d else d + 4, some rest) := by
+  induction n with
+  | zero =>
+    intro f d ne rest hf
+    obtain ⟨f, rfl⟩ : ∃ g, f = g + 1 := ⟨f - 1, by omega⟩
+    simp [pairsToks, listD]
+  | succ n ih =>
+    intro f d ne rest hf
+    obtain ⟨f, rfl⟩ : ∃ g, f = g + 1 := ⟨f - 1, by omega⟩
+    have h1 := parseD_pairsElem n f (d + 1) (pairsToks n (.rp :: rest)) (by omega)
+    have h2 := ih f d true rest (by omega)
+    obtain ⟨t, tl, htl, ht⟩ := pairsElemToks_head n (pairsToks n (.rp :: rest))
+    rw [htl] at h1
+    simp only [pairsToks, htl]
+    rcases ht with rfl | rfl <;>
+    · simp only [listD, h1, h2]
+      by_cases h : n = 0
+      · subst h; simp <;> omega
+      · simp only [h, if_false]; split <;> simp <;> omega
+
+theorem length_pairsToks (n : Nat) : ∀ rest, (pairsToks n rest).length ≤ 5 * n + rest.length ∧
+    n + rest.length ≤ (pairsToks n rest).length := by
+  induction n with
+  | zero => intro rest; simp [pairsToks]
+  | succ n ih =>
+    intro rest
+    have := ih rest
+    simp only [pairsToks, pairsElemToks]
+    split <;> simp <;> omega
+
+theorem parseD_cdrPairs (n f : Nat) (hf : n + 6 ≤ f) :
+    parseD f 1 (.lp :: pairsToks n [.rp]) = some (if n = 0 then 2 else 6, some []) := by
+  obtain ⟨f, rfl⟩ : ∃ g, f = g + 1 := ⟨f - 1, by omega⟩
+  simp only [parseD, listD_pairs n f 2 false [] (by omega)]
+
+theorem listD_atoms_dot (n : Nat) : ∀ (f d : Nat) (ne : Bool) (rest : List Tk), n + 3 ≤ f →
+    (n = 0 → ne = true) →
+    listD f d ne (atoms n (.dot :: .atom :: .rp :: rest)) = some (d + 2, some rest) := by
+  induction n with
+  | zero =>
+    intro f d ne rest hf hne
+    obtain ⟨f, rfl⟩ : ∃ g, f = g + 3 := ⟨f - 3, by omega⟩
+    simp [atoms, listD, tailD, parseD, hne rfl]
+  | succ n ih =>
+    intro f d ne rest hf _
+    obtain ⟨f, rfl⟩ : ∃ g, f = g + 2 := ⟨f - 2, by omega⟩
+    simp only [atoms, listD, parseD, ih (f + 1) d true rest (by omega) (fun _ => rfl)]
+    simp
+
+theorem parseD_cdrDotted (n f : Nat) (hf : n + 4 ≤ f) :
+    parseD f 1 (dottedToks n) = some (if n = 0 then 1 else 4, some []) := by
+  obtain ⟨f, rfl⟩ : ∃ g, f = g + 1 := ⟨f - 1, by omega⟩
+  unfold dottedToks
+  by_cases h : n = 0
+  · subst h; simp [parseD]
+  · simp only [h, if_false, parseD, listD_atoms_dot n f 2 false [] (by omega) (fun h0 => absurd h0 h)]
+
+theorem length_dottedToks (n : Nat) : (dottedToks n).length = if n = 0 then 1 else n + 4 := by
+  unfold dottedToks; split <;> simp [length_atoms]
+
 end Marwood.Depth
